@@ -42,13 +42,21 @@ func (p *diffProp) Gen(seed uint64, tier string, i int) Case {
 	c.Engine.Opt = "none"
 	g := &GenCfg{Avoid: mergeAvoid(p.avoid...), MaxDepth: p.depth, Focus: p.focus, W: c.Window, Lookback: c.Engine.LookbackMs}
 	g.Hostile = r.P(0.15)
+	genLookback := c.Engine.LookbackMs
 	if p.id == "C01" {
 		c.Engine.Opt = Pick(r, optSets)
+	}
+	if (p.id == "C01" || p.id == "C02" || p.id == "C03") && r.P(0.2) {
+		// per-query lookback delta (QueryOpts), different from the engine's
+		c.Engine.QueryLookbackMs = Pick(r, []int64{1000, 30_000, 60_000, 120_000, 300_000, 420_001})
 	}
 	if p.tune != nil {
 		p.tune(r, &c, g)
 	}
-	c.Dataset = GenDataset(r.Fork(), c.Window, c.Engine.LookbackMs, 40, g.Hostile, g.on("hist") && r.P(0.3))
+	if c.Engine.QueryLookbackMs != 0 {
+		genLookback = c.Engine.QueryLookbackMs // lay samples out around the delta that is in force
+	}
+	c.Dataset = GenDataset(r.Fork(), c.Window, genLookback, 40, g.Hostile, g.on("hist") && r.P(0.3))
 	c.Query = GenQuery(r.Fork(), g)
 	return c
 }
